@@ -49,7 +49,7 @@ def seq_configs(tier):
             dict(Kinds={"map"}, EwnsSet=BOOLS, TouSet={False}, NK=3, NV=1, Counts={0, 1, 2, 3}, LocalWrites=False,
                  Illegal=False, MaxLen=5),
             dict(Kinds={"value", "event"}, EwnsSet=BOOLS, TouSet=BOOLS, NK=1, NV=2, Counts=set(), LocalWrites=True,
-                 Illegal=False, MaxLen=8)]
+                 Illegal=False, MaxLen=7)]
 
 
 def graph_configs(tier):
@@ -262,6 +262,11 @@ def judge(out, cases, results, wd, sample_conforming, rng):
                     "first_case": {"cfg": c0["cfg"], "inputs": [{k: v for k, v in a.items() if k in INPUT_KEYS} for a in c0["acts"]],
                                    "observed": r0.get("obs")}}, cap=12)
     st["kf_cases"] = {f: len(ids) for f, ids in kf_hits.items()}
+    st["rejected_by"] = {}
+    for cid in rejected:
+        cfg = by_id[cid][0]["cfg"]
+        key = "%s/%s" % (cfg["kind"], cfg["impl"])
+        st["rejected_by"][key] = st["rejected_by"].get(key, 0) + 1
     # client vs hosted on the same well-behaved sequence
     for c, r in zip(cases, results):
         if c["cfg"]["impl"] != "client" or not well_behaved(c):
@@ -306,7 +311,7 @@ def run(tier, out):
     out.add(states=stats["states"], transitions=stats["transitions"], traces_validated_against_impl=st["cases"],
             sequences_enumerated_by_tlc=stats["sequences"], graph_edges_covered=stats["graph_edges"],
             replayed_inputs=st["steps"], cases_by_kind_impl=by_kind, conform_to_M=st["conform"], divergent_from_M=st["divergent"],
-            model_drift=st["drift"], rejected_by_P=st["rejected"], known_finding_cases=st["kf_cases"],
+            model_drift=st["drift"], rejected_by_P=st["rejected"], rejected_by_kind_impl=st["rejected_by"], known_finding_cases=st["kf_cases"],
             p_trace_cases_evaluated=st["p_cases"], p_trace_events_evaluated=st["p_events"],
             client_vs_hosted_pairs_compared=st["impl_pairs"], client_vs_hosted_mismatches=st["impl_mismatch"],
             action_coverage={a: {"distinct": d, "taken": t} for a, (d, t) in cov.items()}, actions_never_taken=never,
